@@ -83,3 +83,6 @@ PROPS["C18"] = dict(select=[r"^c18_"], tags=["C18:"], cap_quick=1200, cap_thorou
             "|n-m| on this string family - the kernel itself is trusted; lists longer than 3",
     assumptions=COMMON_ASSUME + ["stub: strsim::damerau_levenshtein(x^n, x^m) = |n-m| (its true value on the harness' string family)",
                                  "layer 1 stub: alloc::fmt::format returns a marker (emptiness of the suggestion is observed, not its text)"])
+
+# development aid (not a property): every thorough-only harness once, all assertions count
+PROPS["T00"] = dict(select=[r"^c\d\d_t_"], tags=None, cap_quick=3000, cap_thorough=3000, bounds="", outside="", assumptions=[])
